@@ -74,7 +74,8 @@ def _main(args, seed):
         return 0
 
     # ---- regressions + explicit members (first job) and the generated / exhaustive jobs, all in the pool
-    jobs = [{"name": "explicit+regressions", "kind": "__explicit__"}] + list(mod.jobs(args.tier, seed))
+    jobs = [{"name": "explicit+regressions", "kind": "__explicit__"},
+            {"name": "explicit+regressions under python -O", "kind": "__optimized__"}] + list(mod.jobs(args.tier, seed))
     stall = int(os.environ.get("VF_STALL_LIMIT", "300" if args.tier == "quick" else "3600"))
     results = common.run_jobs(mod, jobs, args.procs, stall_limit=stall)
     tot, errors, per_job = common.merge(results)
